@@ -42,7 +42,11 @@ MoveB(bal, from, to, d, n) ==
 Credit(bal, to, d, n) == IF n = 0 THEN bal ELSE [bal EXCEPT ![to][d] = @ + n]
 Debit(bal, from, d, n) == IF n = 0 THEN bal ELSE [bal EXCEPT ![from][d] = @ - n]
 
-IsExecutor(s, a) == \E i \in 1..Len(s.params.execs) : s.params.execs[i] = a
+(* "up:<name>" is the same bech32 address written in upper case: another string for the same account.  Executors are     *)
+(* compared as accounts (the stored strings are decoded), the admin as a string.                                        *)
+UpperNames == {"up:e1", "up:e2", "up:e3", "up:u1", "up:u2", "up:adm"}
+Acct(a) == CASE a = "up:e1" -> "e1" [] a = "up:e2" -> "e2" [] a = "up:e3" -> "e3" [] a = "up:u1" -> "u1" [] a = "up:u2" -> "u2" [] a = "up:adm" -> "adm" [] OTHER -> a
+IsExecutor(s, a) == \E i \in 1..Len(s.params.execs) : Acct(s.params.execs[i]) = Acct(a)
 
 ----------------------------------------------------------------------------
 (* Bridge hook attached to a deposit.  h.kind:                               *)
